@@ -18,6 +18,11 @@
 //! thread's epilogue), on the handle's thread otherwise.  A class-13 closure whose handle is dropped holds its return
 //! until the handle is gone (so the destructor certainly runs on the spawned thread — on the main thread it would end the
 //! probe); a joined class-13 value is forgotten by the probe, a joined class-14 value is dropped by it (no panic on main).
+//!   c <parent> <id> <ret|panic..> <d_us> <class> <join|drop|dropnow> <d2_us>   the same, but thread <id> is spawned and then
+//!                                                                       joined / dropped BY THE CLOSURE OF THREAD <parent> (any depth): after
+//!                                                                       its own d_us sleep a closure runs the handle-side program of its
+//!                                                                       children (spawn all in script order, then sleep d2 + join | drop each),
+//!                                                                       then returns / panics; its markers S/s/J/R/D/d come from its thread
 //!   go                                                                  run the batch collected so far
 //! Per batch the main thread: measures a baseline, spawns every thread in script order (`dropnow` handles
 //! are dropped right after their spawn), then walks the handles in script order (sleep d2, join | drop),
@@ -591,6 +596,8 @@ fn spawn_one<T: Val>(batch: usize, id: usize, panics: u8, d: usize, gate: bool) 
         mark(b'B', id, &local as *const u8 as usize);
         RUNS[id].fetch_add(1, Ordering::Relaxed);
         sleep_us(d);
+        // this thread as the handle side of other threads (nested scripts)
+        run_children(batch, id);
         // a plain (non-atomic) memory effect: must be visible to whoever joins this thread
         unsafe { EFFECT.0[id].get().write_volatile(tok) };
         if panics != 0 {
@@ -641,6 +648,7 @@ struct Spec {
     class: usize,
     action: u8, // b'j' join, b'd' drop, b'n' dropnow
     d2: usize,
+    parent: usize, // MAIN, or the id of the thread whose closure spawns / joins / drops this one
 }
 
 fn errno_of(e: &tiny_std::Error) -> u64 {
@@ -683,58 +691,50 @@ fn measure(tag: &str) {
     s("\n");
 }
 
-fn run_batch(batch: usize, specs: &[Spec]) {
+/// what the owner of a handle saw (written by the thread that spawned / joined / dropped, printed by main after the batch)
+static SPAWN_ST: [AtomicU32; MAXT] = [Z; MAXT]; // 0 nothing, 1 ok, 2 + errno
+static JOIN_ST: [AtomicU32; MAXT] = [Z; MAXT]; // 0 nothing, 1 None, 2 Some; bit 2: the closure's plain write was visible
+static DROP_ST: [AtomicU32; MAXT] = [Z; MAXT];
+const Z64: core::sync::atomic::AtomicU64 = core::sync::atomic::AtomicU64::new(0);
+static JOIN_DG: [core::sync::atomic::AtomicU64; MAXT] = [Z64; MAXT];
+/// the script of the running batch: the closure of thread <id> spawns, joins and drops the threads whose `parent` is <id>
+static mut TABLE: [Spec; MAXT] = [Spec { id: 0, panics: 0, d: 0, class: 0, action: b'j', d2: 0, parent: MAIN }; MAXT];
+static mut NSPEC: usize = 0;
+const MAIN: usize = MAXT;
+
+/// the handle-side program of one thread (the main thread: `me` = MAIN; a spawned thread: inside its closure): spawn every
+/// thread of the script whose parent is `me`, in script order (`dropnow` handles are dropped right after their spawn), then walk
+/// the handles in script order (sleep d2, join | drop)
+fn run_children(batch: usize, me: usize) {
+    let specs: &[Spec] = unsafe { &TABLE[..NSPEC] };
+    if !specs.iter().any(|sp| sp.parent == me) {
+        return;
+    }
     const NONE: Option<Handle> = None;
     let mut handles: [Option<Handle>; MAXT] = [NONE; MAXT];
-    for sp in specs {
-        RUNS[sp.id].store(0, Ordering::Relaxed);
-        GATE[sp.id].store(0, Ordering::Relaxed);
-        unsafe { EFFECT.0[sp.id].get().write_volatile(0) };
-    }
-    s("batch");
-    num(batch as u64);
-    num(specs.len() as u64);
-    s("\n");
-    MADE.store(0, Ordering::Relaxed);
-    DROPPED.store(0, Ordering::Relaxed);
-    BOMB_MADE.store(0, Ordering::Relaxed);
-    BOMB_DROPS.store(0, Ordering::Relaxed);
-    BOMB_FORGOT.store(0, Ordering::Relaxed);
-    DOUBLE_FREES.store(0, Ordering::Relaxed);
-    measure("before");
-    HEAP_LOG.store(1, Ordering::Relaxed);
-    mark(b'b', batch, specs.len());
-    for sp in specs {
+    for sp in specs.iter().filter(|sp| sp.parent == me) {
         mark(b'S', sp.id, sp.class);
         match spawn_spec(batch, sp) {
             Ok(h) => {
                 mark(b's', sp.id, 0);
-                s("spawn");
-                num(sp.id as u64);
-                s(" ok\n");
+                SPAWN_ST[sp.id].store(1, Ordering::Relaxed);
                 if sp.action == b'n' {
                     mark(b'D', sp.id, 0);
                     drop(h);
                     mark(b'd', sp.id, 0);
                     GATE[sp.id].store(1, Ordering::Release);
-                    s("drop");
-                    num(sp.id as u64);
-                    s("\n");
+                    DROP_ST[sp.id].store(1, Ordering::Relaxed);
                 } else {
                     handles[sp.id] = Some(h);
                 }
             }
             Err(e) => {
                 mark(b's', sp.id, 1 + e as usize);
-                s("spawn");
-                num(sp.id as u64);
-                s(" err");
-                num(e);
-                s("\n");
+                SPAWN_ST[sp.id].store(2 + e as u32, Ordering::Relaxed);
             }
         }
     }
-    for sp in specs {
+    for sp in specs.iter().filter(|sp| sp.parent == me) {
         let h = match handles[sp.id].take() {
             Some(h) => h,
             None => continue,
@@ -761,35 +761,59 @@ fn run_batch(batch: usize, specs: &[Spec]) {
             };
             // the closure's plain write, read after join returned
             let eff = unsafe { EFFECT.0[sp.id].get().read_volatile() };
-            let seen = (eff == token(batch, sp.id)) as u64;
+            let seen = (eff == token(batch, sp.id)) as u32;
             match r {
                 Some(dg) => {
                     mark(b'R', sp.id, (dg as usize) << 1 | 1);
-                    s("join");
-                    num(sp.id as u64);
-                    s(" some");
-                    num(dg);
+                    JOIN_DG[sp.id].store(dg, Ordering::Relaxed);
+                    JOIN_ST[sp.id].store(2 | seen << 2, Ordering::Relaxed);
                 }
                 None => {
                     mark(b'R', sp.id, 0);
-                    s("join");
-                    num(sp.id as u64);
-                    s(" none");
+                    JOIN_ST[sp.id].store(1 | seen << 2, Ordering::Relaxed);
                 }
             }
-            s(" effect");
-            num(seen);
-            s("\n");
         } else {
             mark(b'D', sp.id, 0);
             drop(h);
             mark(b'd', sp.id, 0);
             GATE[sp.id].store(1, Ordering::Release);
-            s("drop");
-            num(sp.id as u64);
-            s("\n");
+            DROP_ST[sp.id].store(1, Ordering::Relaxed);
         }
     }
+}
+
+fn run_batch(batch: usize, specs: &[Spec]) {
+    unsafe {
+        let mut i = 0;
+        while i < specs.len() {
+            TABLE[i] = specs[i];
+            i += 1;
+        }
+        NSPEC = specs.len();
+    }
+    for sp in specs {
+        RUNS[sp.id].store(0, Ordering::Relaxed);
+        GATE[sp.id].store(0, Ordering::Relaxed);
+        SPAWN_ST[sp.id].store(0, Ordering::Relaxed);
+        JOIN_ST[sp.id].store(0, Ordering::Relaxed);
+        DROP_ST[sp.id].store(0, Ordering::Relaxed);
+        unsafe { EFFECT.0[sp.id].get().write_volatile(0) };
+    }
+    s("batch");
+    num(batch as u64);
+    num(specs.len() as u64);
+    s("\n");
+    MADE.store(0, Ordering::Relaxed);
+    DROPPED.store(0, Ordering::Relaxed);
+    BOMB_MADE.store(0, Ordering::Relaxed);
+    BOMB_DROPS.store(0, Ordering::Relaxed);
+    BOMB_FORGOT.store(0, Ordering::Relaxed);
+    DOUBLE_FREES.store(0, Ordering::Relaxed);
+    measure("before");
+    HEAP_LOG.store(1, Ordering::Relaxed);
+    mark(b'b', batch, specs.len());
+    run_children(batch, MAIN);
     // wait until every spawned thread is gone (bounded: the check's watchdog reports the rest)
     let mut waited = 0;
     while n_threads() > 1 && waited < 40_000 {
@@ -799,6 +823,39 @@ fn run_batch(batch: usize, specs: &[Spec]) {
     mark(b'e', batch, 0);
     HEAP_LOG.store(0, Ordering::Relaxed);
     measure("after");
+    for sp in specs {
+        let st = SPAWN_ST[sp.id].load(Ordering::Relaxed);
+        if st == 1 {
+            s("spawn");
+            num(sp.id as u64);
+            s(" ok\n");
+        } else if st >= 2 {
+            s("spawn");
+            num(sp.id as u64);
+            s(" err");
+            num((st - 2) as u64);
+            s("\n");
+        }
+        let js = JOIN_ST[sp.id].load(Ordering::Relaxed);
+        if js & 3 != 0 {
+            s("join");
+            num(sp.id as u64);
+            if js & 3 == 2 {
+                s(" some");
+                num(JOIN_DG[sp.id].load(Ordering::Relaxed));
+            } else {
+                s(" none");
+            }
+            s(" effect");
+            num((js >> 2) as u64);
+            s("\n");
+        }
+        if DROP_ST[sp.id].load(Ordering::Relaxed) != 0 {
+            s("drop");
+            num(sp.id as u64);
+            s("\n");
+        }
+    }
     for sp in specs {
         s("runs");
         num(sp.id as u64);
@@ -884,7 +941,7 @@ pub fn main() -> i32 {
     };
     MAIN_TID.store(unsafe { sys4(SYS_GETTID, 0, 0, 0, 0) } as usize, Ordering::Relaxed);
     class_sizes();
-    let mut specs = [Spec { id: 0, panics: 0, d: 0, class: 0, action: b'j', d2: 0 }; MAXT];
+    let mut specs = [Spec { id: 0, panics: 0, d: 0, class: 0, action: b'j', d2: 0, parent: MAIN }; MAXT];
     let mut n = 0;
     let mut batch = 0;
     for line in script.split(|c| *c == b'\n') {
@@ -896,9 +953,12 @@ pub fn main() -> i32 {
                 batch += 1;
                 n = 0;
             }
-            Some(b"t") => {
+            Some(kind @ (b"t" | b"c")) => {
+                // `c <parent> ...`: spawned, joined / dropped by the closure of thread <parent> instead of the main thread
+                let parent = if kind == b"c" { w.next().and_then(parse_usize).filter(|p| *p < MAXT) } else { Some(MAIN) };
                 let f: [Option<&[u8]>; 6] = [w.next(), w.next(), w.next(), w.next(), w.next(), w.next()];
                 let ok = (|| {
+                    let parent = parent?;
                     let id = parse_usize(f[0]?)?;
                     let panics = match f[1]? {
                         b"ret" => 0u8,
@@ -921,7 +981,10 @@ pub fn main() -> i32 {
                     if id >= MAXT || class > 14 || n >= MAXT {
                         return None;
                     }
-                    Some(Spec { id, panics, d, class, action, d2 })
+                    if parent == id {
+                        return None;
+                    }
+                    Some(Spec { id, panics, d, class, action, d2, parent })
                 })();
                 match ok {
                     Some(sp) => {
